@@ -43,8 +43,9 @@ pub fn round0(ctx: &Ctx, rep: &mut Report) {
         let k = 2 + (b % 4);
         let Some((cases, proofs)) = make_batch(n, ext, k, b, &mut rng) else { continue };
         let ts: Vec<Transcript> = cases.iter().map(|c| c.transcript()).collect();
-        let sts: Vec<Stmt> = cases.iter().map(|c| c.statement_public()).collect();
-        if verify_many(&ts, &sts, &proofs, VerifyAction::VerifyOnly).is_err() {
+        let action = if b % 2 == 0 { VerifyAction::VerifyOnly } else { VerifyAction::RecoverAndVerify };
+        let sts: Vec<Stmt> = cases.iter().map(|c| if b % 4 >= 2 { c.statement() } else { c.statement_public() }).collect();
+        if verify_many(&ts, &sts, &proofs, action).is_err() {
             rep.note("C08: honest batch rejected (see C03)".into());
             continue;
         }
@@ -63,7 +64,7 @@ pub fn round0(ctx: &Ctx, rep: &mut Report) {
                         rep.note("C08: a proof with a shifted d1 verifies alone (see C05)".into());
                         continue;
                     }
-                    if verify_many(&ts, &sts, &pr, VerifyAction::VerifyOnly).is_ok() {
+                    if verify_many(&ts, &sts, &pr, action).is_ok() {
                         rep.violation(
                             &format!("C08 equal-opposite-defects-accepted {GROUP}"),
                             &format!("batch of {k}: proofs {i} and {j} carry defects +delta / -delta on blinding coordinate {kk}, each is invalid alone, and the batch is accepted"),
